@@ -25,6 +25,13 @@ def make(case):
         flat[rng.integers(0, flat.size, size=max(1, flat.size // 10))] = 4096.0
     else:
         x = rng.integers(-64, 65, size=shape).astype(np.float64) / 4.0
+    if k == "lane-const" and x.ndim == 2:
+        # one lane (first, last or a middle one, along either axis) exactly constant, the others random
+        lane = {0: 0, 1: -1, 2: x.shape[0] // 2}[int(rng.integers(0, 3))]
+        if int(rng.integers(0, 2)):
+            x[lane, :] = 5.0
+        else:
+            x[:, lane] = 5.0
     return x
 
 
@@ -37,7 +44,7 @@ class C15(Prop):
     assumptions = ["numerical tolerance 1e-9 (scale, float64) / 2e-4 (z-scores, float32); astropy's biweight is "
                    "validated, not modelled", "z-score equivariance is not required when the scale estimate is zero "
                    "(documented unit-scale fallback)"]
-    regimes_expected = ["scale-affine", "zscore-affine", "axis-None", "axis-0", "axis-1", "const"]
+    regimes_expected = ["scale-affine", "zscore-affine", "axis-None", "axis-0", "axis-1", "const", "lane-const"]
     budget_s = (200, 1200)
 
     def _case(self, rng, kind=None):
@@ -47,7 +54,7 @@ class C15(Prop):
         axis = rng.choice(("None", 0)) if nd == 1 else rng.choice(("None", 0, 1))
         return {"kind": kind, "scale": rng.choice(SCALES), "loc": rng.choice(LOCS + ("norm",)), "shape": shape,
                 "axis": axis, "a": rng.choice((1.0, -1.0, 0.015625, 64.0, -2.0, 0.25, -100.0 * 0 + -32.0)),
-                "b": rng.choice((0.0, 3.0, -1024.0, 0.5)), "dkind": rng.choice(("rand", "rand", "ties", "outliers", "const")),
+                "b": rng.choice((0.0, 3.0, -1024.0, 0.5)), "dkind": rng.choice(("rand", "rand", "ties", "outliers", "const", "lane-const")),
                 "dseed": rng.randrange(1 << 30)}
 
     def gen(self, rng, tier):
@@ -58,6 +65,10 @@ class C15(Prop):
                 c = self._case(rng, "axis")
                 c.update(scale=sc, axis=ax, shape=[9, 10], dkind="rand")
                 cases.append(c)
+                if ax != "None":     # every method with a constant lane among varying ones
+                    c2 = self._case(rng, "axis")
+                    c2.update(scale=sc, axis=ax, shape=[9, 10], dkind="lane-const")
+                    cases.append(c2)
         return cases
 
     def corpus(self):
@@ -177,6 +188,8 @@ class C15(Prop):
     def regime(self, case, obs):
         if case["dkind"] == "const":
             return "const"
+        if case["dkind"] == "lane-const" and len(case["shape"]) == 2 and case["axis"] != "None":
+            return "lane-const"
         if case["kind"] == "axis":
             return f"axis-{case['axis']}"
         return case["kind"]
